@@ -24,6 +24,23 @@ CHECKS = {
         "against a real direct run in every case).",
         "DESIGN.md 3/C07",
     ),
+    "C10": (
+        "fault_enumeration",
+        "exhaustive crash-point enumeration (every prefix + torn last write of the recorded file-operation log) with recovery replay on the real code",
+        "Each workload (sow, re-sow, grow, Crop.grow, grow_missing, reap) on raw, "
+        "Runner, Harvester (h5netcdf, joblib) and Sampler (pickle, csv) crops is "
+        "executed once under a file-system seam that records every mutating "
+        "operation; every prefix of that log and every torn prefix of every write "
+        "is materialised as a disk state, and in each state fresh sessions run "
+        "reap, reap(allow_incomplete), the documented recovery and the "
+        "earlier-data-survives probe; the thorough tier repeats this for a second "
+        "crash inside the recovery. The log is proved complete by byte-exact "
+        "replay and a subset of states is reproduced with real SIGKILL.",
+        "Process kill, not power loss (no block re-ordering); HDF5 writes are "
+        "opaque and modelled as absent/empty/half/all-but-one/complete; a fresh "
+        "session is new Python objects built from name and directory.",
+        "DESIGN.md 3/C10",
+    ),
 }
 
 NOT_BUILT = "check not built yet in this session (design in DESIGN.md section 3)"
